@@ -197,6 +197,15 @@ def _table_names(F, callee, variants, reg):
     if not fn:
         return set()
     sws = lib.enum_switches(fn, "OpCode")
+    if not sws:
+        # a wrapper around the real table (op_to_name_payload -> try_op_to_name_payload)
+        inner = [c for c in F.callees(fn, expand_unresolved=False)
+                 if c in F.fns and c != callee and (F.fns[c].d.get("in") or [""])[0] == "OpCode"]
+        if inner:
+            out = set()
+            for c in inner:
+                out |= _table_names(F, c, variants, reg)
+            return out
     if not sws or variants is None:
         return _names_in_body(F, callee, reg)
     out = set()
@@ -269,7 +278,7 @@ PANIC = r"core::panicking::|core::result::unwrap_failed|core::option::(unwrap|ex
 def emitted_names(F, reg):
     """helper names that the translator can emit: string constants of its methods and of op_to_name_payload"""
     names = set()
-    fns = list(translator(F)) + F.find(r"^steel::jit2::cgen::op_to_name_payload$")
+    fns = list(translator(F)) + F.find(r"^steel::jit2::cgen::(try_)?op_to_name_payload$")
     for fn in fns:
         for _, _, e in fn.events("kv"):
             if e[2].startswith("str:") and e[2][4:] in reg:
@@ -282,7 +291,7 @@ def emitted_names(F, reg):
 
 
 def dynamic_names(F, reg):
-    f = F.find(r"^steel::jit2::cgen::op_to_name_payload$")
+    f = F.find(r"^steel::jit2::cgen::(try_)?op_to_name_payload$")
     out = set()
     for fn in f:
         for _, _, e in fn.events("kv"):
@@ -455,3 +464,79 @@ def deopt_rule(F, R, rid):
                    sample=(n % 5 == 0))
     R.floor(rid, "emissions of fallible JIT helpers", n, 15)
     R.note("%s: fallible helpers (store into VmCore.result): %s" % (rid, ", ".join(sorted(fal))))
+
+
+def name_table_gate_rule(F, R, rid):
+    R.rule(rid, "the translator never meets an (opcode, argument count) it has no handler for: the opcodes whose entries in the "
+                "JIT's name table (op_to_name_payload) depend on the payload — the argument count taken from the instruction "
+                "stream — while the lookup panics for a missing entry, are all covered by a gate that consults the same table "
+                "and runs in compile_bytecode before JIT::compile (table/gate agreement); otherwise compiling a function that "
+                "contains e.g. (< a b c) aborts the host")
+    tabs = F.find(r"^steel::jit2::cgen::(try_)?op_to_name_payload$")
+    if not tabs:
+        raise CheckError("anchor lost: jit2::cgen::op_to_name_payload")
+    table = max(tabs, key=lambda f: len(f.blocks))
+    sws = lib.enum_switches(table, "OpCode")
+    if not sws:
+        raise CheckError("anchor lost: op_to_name_payload does not match on the opcode")
+    am = lib.arm_map(table, sws[0])
+    specific = set()
+    for v, t in am.items():
+        if v == "_":
+            continue
+        b = t
+        for _ in range(6):
+            blk = table.blocks[b]
+            if blk["k"] == "goto" and len(blk["s"]) == 1:
+                b = blk["s"][0]
+                continue
+            break
+        blk = table.blocks[b]
+        if blk["k"] == "switch" and not blk["on"].startswith("enum:") and blk["on"] != "bool":
+            specific.add(v)
+    R.floor(rid, "opcodes with argument-count specific handlers", len(specific), 6)
+    # can the lookup used by the translator panic?
+    lookup = F.one(r"^steel::jit2::cgen::op_to_name_payload$")
+    fam = [lookup] + [F.fns[c] for c in F.callees(lookup) if c in F.fns and c.startswith("steel::jit2::")]
+    panics = any(re.search(PANIC, b["callee"]) for f in fam for _, b in f.calls())
+    if not panics:
+        R.inst(rid, "the handler lookup has a non-panicking outcome for a missing entry", True, sample=True)
+        return
+    # the gate: reached from compile_bytecode, calls the table, before JIT::compile
+    cb = F.one(r"^steel::jit2::cgen::compile_bytecode$")
+    comp = cb.call_blocks(r"\{impl JIT\}::compile$")
+    if not comp:
+        raise CheckError("anchor lost: compile_bytecode no longer calls JIT::compile")
+    gate_ops = set()
+    tabnames = {f.name for f in tabs}
+    seen = set()
+    frontier = [(cb.name, 0)]
+    gates = []
+    while frontier:
+        n, d = frontier.pop()
+        if n in seen or d > 3:
+            continue
+        seen.add(n)
+        f = F.fns.get(n)
+        if not f or not n.startswith("steel::jit2::") or "FunctionTranslator" in n or "{impl JIT}::compile" in n:
+            continue
+        calls_tab = [i for i, b in f.calls() if b["callee"] in tabnames]
+        if calls_tab and n != cb.name:
+            gates.append((f, calls_tab))
+        for c in F.callees(f, expand_unresolved=False):
+            frontier.append((c, d + 1))
+    for f, calls_tab in gates:
+        for sb in lib.enum_switches(f, "OpCode"):
+            for v, t in lib.arm_map(f, sb).items():
+                if v != "_" and any(c in f.reachable_from([t]) for c in calls_tab):
+                    gate_ops.add(v)
+    R.inst(rid, "compile_bytecode gates translation on the name table", bool(gates),
+           "compile_bytecode translates whatever bytecode it is given, and the translator's handler lookup panics for an "
+           "(opcode, argument count) without an entry: a script function using such a call form aborts the host when it is "
+           "JIT-compiled", cb.loc(), sample={"gate": [g.short() for g, _ in gates]})
+    for v in sorted(specific):
+        R.inst(rid, "opcode %s: argument counts without a handler are rejected before translation" % v,
+               v in gate_ops or not gates and False,
+               "the JIT's name table has handlers for %s only for some argument counts and the lookup panics otherwise, but "
+               "the gate in compile_bytecode does not check %s: (define (f a b c) (%s a b c)) aborts the host when f is "
+               "JIT-compiled" % (v, v, v.lower()), table.loc(), sample=False)
